@@ -31,7 +31,7 @@ structure Inv (s : State) : Prop where
   shutPc : ∀ c, s.loops (s.cs c).loop = .shutting → (s.cs c).pc.shutOk
   busyRun : ∀ c, (s.cs c).pc.parked = false → (s.loops (s.cs c).loop).isRunning
   lockIff : ∀ c, s.lock = some c ↔ (s.cs c).pc.locked
-  putDead : ∀ c, (s.cs c).pc = .put → ∀ l e, s.marker (s.cs c).key = some (l, e) → (s.loops l).wasStopped
+  putDead : ∀ c, (s.cs c).pc = .put → ∀ d, (s.cs d).pc.owner → (s.cs d).key = (s.cs c).key → (s.cs d).orphan = true
   chkLoopCap : ∀ c, (s.cs c).pc = .chkLoop → s.marker (s.cs c).key = some ((s.cs c).evLoop, (s.cs c).ev)
   idleBeyond : ∀ c : CId, s.ncallers ≤ c.n → (s.cs c).pc = .idle
   -- provenance of every outcome (C06)
